@@ -35,6 +35,11 @@ def gen_sources(tier, seed):
         for feat in (0, 1):
             srcs.append((feat, f"halt\n{m}{operand}\ns halt\n", "stack-mnemonic"))
             srcs.append((feat, f"halt\n{m.upper()}{operand}\ns halt\n", "stack-mnemonic"))
+    # MANY errors of one kind: an exit status is 8 bits wide, a count of diagnostics is not
+    for nerr in (255, 256, 257, 512, 1024):
+        srcs.append((0, "halt\n" + "br far\n" * nerr + ".blkw #600\nfar halt\n", "many-emit-errors"))
+        srcs.append((0, "halt\n" + "".join("ld r1 u%d\n" % i for i in range(nerr)), "many-undefined"))
+        srcs.append((0, "halt\n" + "add r0 r0 #99\n" * nerr, "many-range-errors"))
     cases, tags = C04.gen_cases("quick", seed)
     picked = [(c, t) for c, t in zip(cases, tags) if not t.startswith("random") and not t.startswith("spelling")]
     rnd.shuffle(picked)
